@@ -363,7 +363,7 @@ FIXED = [
 
 def scenarios(rng, tier):
     yield from FIXED
-    n = 2500 if tier == 'quick' else 90000
+    n = 10000 if tier == 'quick' else 300000
     for k in range(n):
         yield FAMILIES[k % len(FAMILIES)](rng)
 
@@ -537,6 +537,12 @@ def oracle(scn, res):
             if b['evals'] > b['bound']:
                 out.append({'clause': 'dag_path_bound',
                             'what': f"{where}: {b['evals']} evaluations, only {b['bound']} paths from the changed blocks"})
+    if P is not None and not has_events and res['bursts'] and res['bursts'][0]['fin'] != 'error':
+        ncb = len(P)
+        if res['bursts'][0]['evals'] != ncb:
+            out.append({'clause': 'first_pass_linear',
+                        'what': f"acyclic network of {ncb} CBlocks, the first pass took {res['bursts'][0]['evals']} "
+                                f"evaluations (select_blk should take blocks without pending inputs first)"})
     exp = scn.get('expect')
     if exp == 'unstable_first' and res['bursts'] and res['bursts'][0]['fin'] == 'idle':
         out.append({'clause': 'unsat_detected', 'what': 'event loop with an odd number of inversions paused'})
